@@ -207,6 +207,12 @@ func init() {
 		if it.t == nil {
 			return tuple{strToBytes("null"), nilError()}
 		}
+		// a top-level value with its own MarshalJSON produces real JSON text
+		if p, isPtr := it.v.(*value); !(isPtr && p == nil) {
+			if r, ok := callMethod(fr, it.t, it.v, "MarshalJSON"); ok {
+				return r
+			}
+		}
 		return tuple{marshalBlob(fr, "json", it.t, it.v), nilError()}
 	}
 	reg("encoding/json.Marshal", jsonMarshal)
@@ -229,6 +235,11 @@ func init() {
 		}
 		if len(data) == 0 {
 			return errorValue(fr, "unexpected end of JSON input")
+		}
+		if _, ok := concBytes(data); ok {
+			if r, ok := callMethod2(fr, it.t, it.v, "UnmarshalJSON", data); ok {
+				return r
+			}
 		}
 		if b, ok := concBytes(data); ok {
 			if err := jsonDecodeConcrete(fr, b, pt.Elem(), dst); err != "" {
